@@ -206,6 +206,29 @@ def worker(job):
             continue
         if not isinstance(inv, int) or (v * inv) % p != 1:
             R.violation("inverse-wrong", "fieldinverse(%d) = %r is not the inverse modulo p" % (v, inv), backend=be)
+    # field switch inside one interpreter (what importing backendbellman / backendbulletproofs after the base module
+    # has been used amounts to): the same arguments must be inverted in the field then in effect
+    if hasattr(mod, "set_modulus"):
+        orders = curve_orders()
+        vs = [1, 2, 3, 5, 7, -1, -2, 12345, p - 1, p + 1, (1 << 300) + 7] + [rnd.randrange(1, 1 << 200) for _ in range(20)]
+        for name in ("bls12-381", "curve25519", "bn254", curve):
+            q = orders[name]
+            mod.set_modulus(q)
+            if mod.get_modulus() != q:
+                R.violation("set-modulus-ignored", "after set_modulus the backend reports %d" % mod.get_modulus(), backend=be)
+            for v in vs:
+                if v % q == 0:
+                    continue
+                R.count("inverses_checked_after_field_switch")
+                R.case(cell="%s|inverse-after-switch|%s" % (be, name), key=(be, "inv-switch", name, v))
+                try:
+                    inv = mod.fieldinverse(v)
+                except Exception as e:  # noqa
+                    R.violation("inverse-raised", "fieldinverse(%d) raised %r after switching to %s" % (v, e, name), backend=be)
+                    continue
+                if (v * inv) % q != 1:
+                    R.violation("inverse-wrong-after-field-switch", "after switching to %s fieldinverse(%d) is not the inverse modulo the field now in effect" % (name, v), backend=be)
+        mod.set_modulus(p)
     if qap:
         import shutil
         shutil.rmtree(os.environ["PYSNARK_KEYDIR"], ignore_errors=True)
